@@ -26,10 +26,26 @@ def body(ctx):
     tune_ok_kernel(ctx, ex, prog, viol)
     tune_arm(ctx, ex, prog, viol)
     frame_max_to_payload(ctx, ex, prog, viol)
+    channel_max_obeyed(ctx, prog)
     if ctx.tier == 'thorough' or os.environ.get('VERIF_KANI'):
         kani_cross_check(ctx)
     for v in viol:
         ctx.report(v[0], v[1], v[2], v[3], uses='use super::*;', inject_into='src/connection_options.rs') if v[3] else ctx.inconclusive.append(str(v[:3]))
+
+
+def channel_max_obeyed(ctx, prog):
+    """the negotiated channel_max is obeyed: every history of K open/close/drain operations on the channel table hands out ids within
+    1..=channel_max only (the bounded model check of C10, at a smaller depth; the deeper exploration and the inductive step are C10's)"""
+    import c10
+    K = ctx.q(3, 4)
+    ctx.bound('channel_table_history_K', K)
+    reports = []
+    try:
+        c10.run_bmc(ctx, prog, K, 'dev', reports)
+    except (Unsupported, c10.Inconclusive) as e:
+        ctx.inconclusive.append(f"channel table BMC: {type(e).__name__}: {e}")
+    for (desc, maxv, prefix, ops, what) in reports:
+        ctx.report(None, what, desc, c10.rust_test(maxv, prefix, ops, desc.get('n_tail', 1)), inject_into='src/io_loop/mod.rs', role_from_output=True)
 
 
 def options_value(prog):
@@ -177,23 +193,20 @@ def tune_arm(ctx, ex, prog, viol):
 
 
 def frame_max_to_payload(ctx, ex, prog, viol):
-    """Channel0Handle::new turns the announced frame_max into the per-frame payload limit frame_max-8 (0 = unlimited)"""
-    f = prog.method('Channel0Handle', 'new')
-    fm = z3.BitVec('fm', 64)
-    st = State()
-    st.pc.append(z3.Or(fm == 0, z3.And(z3.UGE(fm, 4096), z3.ULE(fm, 0xffffffff))))
-    ctx.assume("Channel0Handle::new is called with TuneOk.frame_max, which is 0 or >= 4096 (post-condition of make_tune_ok, checked above)")
-    common = mk_struct(prog, 'IoLoopHandle', channel_id=Int(0, 16), buf=Agg({0: ByteVec('b')}, 'OutputBuffer'), tx=Unit(), rx=Unit())
-    h0 = mk_struct(prog, 'IoLoopHandle0', common=common, set_blocked_tx=Unit(), alloc_chan_req_tx=Unit(), alloc_chan_rep_rx=Unit())
-    for (s, rv) in ex.run(st, f, [h0, Int(fm, 64)]):
-        if isinstance(rv, Panic):
-            c = z3.BoolVal(False)
-        else:
-            got = field(prog, rv, 'Channel0Handle', 'frame_max').bv
-            c = got == z3.If(fm == 0, z3.BitVecVal(2 ** 64 - 1, 64) - 8, fm - 8)
-        m = ctx.decide('c15.payload-limit', s.pc, c, group='the negotiated frame_max becomes the per-frame payload limit frame_max-8 (no underflow; 0 = unlimited)')
-        if m is not None:
-            viol.append(('payload-limit', f"Channel0Handle::new(frame_max={m.eval(fm, model_completion=True)})", {}, None))
+    """the negotiated frame_max is obeyed: a channel of a connection that announced frame_max never hands the I/O thread a frame
+    longer than that (decided end to end through Channel0Handle::new -> open_channel -> Channel::new -> basic_publish, as in C02,
+    so that it does not matter where the implementation subtracts the 8 bytes of framing)"""
+    import c02
+    K = ctx.q(2, 4)
+    ex2 = io_executor(ctx, prog, unwind=K + 2, extra=cell_summaries())
+    ctx.assume(f"frame_max obeyed: at most {K} body frames per publish (loop bound), frame_max = 0 or 4096..2^32-1 (post-condition of make_tune_ok, checked above)")
+    v2 = []
+    f = prog.method('Channel', 'basic_publish')
+    for st in c02.channels_via_negotiation(ctx, prog, ex2, v2):
+        c02.publish_once(ctx, prog, ex2, f, st, 'p1', K, v2, second=False, prior=len(sent_frames(prog, st.roots['ch.info'])))
+    for v in v2:
+        if not any(x['role'] == 'publish-framing' for x in ctx.violations):
+            viol.append(('payload-limit', str(v)[:300], {}, None))
 
 
 KANI_HARNESS = r'''
